@@ -7,7 +7,8 @@ FAMILIES = ("TC",)
 RULE = (
     "for each of the 12 task-constraint classes a generated parameter grid (kinds, offsets 0-3, values -1..H+1, 1-3 "
     "intervals, exact/min/max counts, groups with window / length / neither) attached to random mixes of task kinds, "
-    "optional tasks in ~30% of tasks x admitted schedules; each judged by the documented relation. Non-trivial = "
+    "optional tasks in ~30% of tasks, plus a stratum of TaskPrecedence whose operands are task groups (group-task, task-group, "
+    "group-group; the relation must hold for some admissible position of the group window) x admitted schedules; each judged by the documented relation. Non-trivial = "
     "non-default schedule binding for a task constraint (a +-1/flip neighbour violates it)."
 )
 TECHNIQUE = "Hypothesis-generated constraint parameter grids; admitted schedules (steered / enumerated) judged by the documented relation in a z3-free reference model"
